@@ -9,7 +9,7 @@ src, dst = sys.argv[1], sys.argv[2]
 ROOT = tempfile.mkdtemp(prefix='mf.', dir='/tmp')
 def sh(cmd):
     return subprocess.run(cmd, shell=True, capture_output=True, text=True)
-sh(f'mkdir -p {ROOT}/base && cd /repo && git archive HEAD | tar -x -C {ROOT}/base')
+sh(f'mkdir -p {ROOT}/base && cd /repo && git archive {os.environ.get("MUTBASE", "HEAD")} | tar -x -C {ROOT}/base')
 def keys_of(repo):
     out = sh(f'./bin/colvet -repo {repo} -property all -keys 2>&1').stdout
     per, cur = {}, []
